@@ -15,13 +15,14 @@ CONSTANTS N,         \* ring size
           Suites,    \* set of [cu, hu, hc]
           LenPairs   \* set of <<len, hlen>>
 
-VARIABLES ms, info, queue, nextId, returned, ok
+VARIABLES ms, info, queue, nextId, returned, ok,
+          sync      \* last synchronous burst: [k, count] (count = its return value)
 
-cvars == <<ms, info, queue, nextId, returned, ok>>
+cvars == <<ms, info, queue, nextId, returned, ok, sync>>
 NoInfo == [cu |-> "sync", hu |-> "sync", hc |-> FALSE, len |-> 0, hlen |-> 0]
 
 CInit == /\ ms = EmptyMachine /\ info = [j \in 1 .. MaxJobs |-> NoInfo] /\ queue = <<>>
-         /\ nextId = 1 /\ returned = <<>> /\ ok = TRUE
+         /\ nextId = 1 /\ returned = <<>> /\ ok = TRUE /\ sync = [k |-> 0, count |-> 0]
 
 \* submit_job_and_check after a successful check: submit_new_job; ring full => complete the oldest and hand it
 \* back; otherwise hand back the oldest if it is complete
@@ -40,7 +41,7 @@ CSubmit ==
             /\ ok' = r2.ok
             /\ queue' = IF give THEN Tail(q1) ELSE q1
             /\ returned' = IF give THEN Append(returned, Head(q1)) ELSE returned
-    /\ nextId' = nextId + 1
+    /\ nextId' = nextId + 1 /\ UNCHANGED sync
 
 CFlush ==
     /\ queue # <<>> /\ ok
@@ -48,15 +49,49 @@ CFlush ==
          /\ ms' = r.ms /\ ok' = r.ok
          /\ queue' = IF r.ok THEN Tail(queue) ELSE queue
          /\ returned' = IF r.ok THEN Append(returned, Head(queue)) ELSE returned
-    /\ UNCHANGED <<info, nextId>>
+    /\ UNCHANGED <<info, nextId, sync>>
 
 CGetCompleted ==
     /\ queue # <<>> /\ ok /\ Completed(ms, Head(queue))
     /\ queue' = Tail(queue) /\ returned' = Append(returned, Head(queue))
-    /\ UNCHANGED <<ms, info, nextId, ok>>
+    /\ UNCHANGED <<ms, info, nextId, ok, sync>>
 
 CNext == CSubmit \/ CFlush \/ CGetCompleted
 CSpec == CInit /\ [][CNext]_cvars
+
+-----------------------------------------------------------------------------
+(* Synchronous cipher burst (lib/include/mb_mgr_burst.h, submit_aes_cbc_burst_enc): k caller-owned jobs     *)
+(* go straight into the SAME out-of-order unit the asynchronous API uses; whatever the unit hands back is    *)
+(* marked COMPLETED and counted; if fewer than k came back the unit is flushed until it is empty.            *)
+(* SyncUnit = the cipher unit used, sync jobs get ids above MaxJobs.                                         *)
+CONSTANT SyncUnit
+MarkDone(m, j) == IF j = NOJ THEN m ELSE [m EXCEPT !.cd = @ \cup {j}, !.ad = @ \cup {j}]    \* status = COMPLETED
+RECURSIVE SyncSubmit(_, _, _, _, _)
+SyncSubmit(m, k, len, i, cnt) ==
+    IF i > k THEN [ms |-> m, count |-> cnt]
+    ELSE LET r == USubmit(SyncUnit, m.u[SyncUnit], MaxJobs + i, len) IN
+         SyncSubmit(MarkDone([m EXCEPT !.u[SyncUnit] = r.st], r.ret), k, len, i + 1, IF r.ret = NOJ THEN cnt ELSE cnt + 1)
+RECURSIVE SyncDrain(_, _, _)
+SyncDrain(m, cnt, fuel) ==
+    LET r == UFlush(SyncUnit, m.u[SyncUnit]) IN
+    IF r.ret = NOJ \/ fuel = 0 THEN [ms |-> m, count |-> cnt]
+    ELSE SyncDrain(MarkDone([m EXCEPT !.u[SyncUnit] = r.st], r.ret), cnt + 1, fuel - 1)
+
+\* quiet = TRUE: only when no asynchronous job is parked in the unit (the condition under which the call is sound)
+CSyncBurst(quiet) ==
+    /\ ok
+    /\ quiet => UBusyJobs(SyncUnit, ms.u[SyncUnit]) = {}
+    /\ \E k \in 1 .. 2, len \in {16, 48} :
+         LET r1 == SyncSubmit(ms, k, len, 1, 0)
+             r2 == IF r1.count # k THEN SyncDrain(r1.ms, r1.count, Fuel) ELSE r1
+         IN /\ ms' = r2.ms
+            /\ sync' = [k |-> k, count |-> r2.count]
+    /\ UNCHANGED <<info, queue, nextId, returned, ok>>
+
+CSpecSyncQuiet == CInit /\ [][CNext \/ CSyncBurst(TRUE)]_cvars
+CSpecSyncAny == CInit /\ [][CNext \/ CSyncBurst(FALSE)]_cvars
+\* the call returns exactly the number of jobs it was given
+SyncExact == sync.count = sync.k
 
 -----------------------------------------------------------------------------
 Queued == { queue[i] : i \in 1 .. Len(queue) }
@@ -80,8 +115,8 @@ InOrder == /\ \A i \in 1 .. Len(returned) : returned[i] = i
            /\ \A i \in 1 .. Len(returned) : Completed(ms, returned[i])
            /\ returned \o queue = [i \in 1 .. nextId - 1 |-> i]
 \* each stage of each job is served exactly once (stage log)
-CEntered(j) == j \in ms.cd \/ (info[j].cu # "sync" /\ InUnit(ms, info[j].cu, j))
-HEntered(j) == j \in ms.ad \/ (info[j].hu # "sync" /\ InUnit(ms, info[j].hu, j))
+CEntered(j) == j \in ms.cd \/ (info[j].cu \in DOMAIN U /\ InUnit(ms, info[j].cu, j))
+HEntered(j) == j \in ms.ad \/ (info[j].hu \in DOMAIN U /\ InUnit(ms, info[j].hu, j))
 Count(tag, j) == Cardinality({ i \in 1 .. Len(ms.log) : ms.log[i][1] = tag /\ ms.log[i][2] = j })
 OncePerStage ==
     LogStages => \A j \in 1 .. nextId - 1 :
